@@ -251,7 +251,13 @@ def assess(isos, pures, p, loadings, ref, what, ctx):
             except CalculationError:
                 sp[i] = pures[i].sp(float(p0[i]))  # library range guard (depends on its cache); same function, own code
                 ctx.label("sp_by_reference_formula")
-            n0[i] = float(isos[i].loading_at(p0[i]))
+            try:
+                n0[i] = float(isos[i].loading_at(p0[i]))
+            except ValueError:
+                # p_i/x_i recomputed here from the returned loadings can fall an ulp outside the data range of a point
+                # isotherm (the library evaluated its own p_i/x_i): same function, own code
+                n0[i] = pures[i].load(float(p0[i]))
+                ctx.label("n0_by_reference_formula")
         except (OverflowError, ZeroDivisionError, R.OutOfDomain) as e:
             raise Violation(f"{what}: the pure isotherm {i} cannot be evaluated at the fictitious pressure p_i/x_i = "
                             f"{p0[i]!r} implied by the returned loadings {_fmt(l)} ({type(e).__name__}); p={_fmt(p)}",
